@@ -73,6 +73,11 @@ impl AnalyzedSource {
     }
 
     pub fn update(self, changes: Vec<TextChange>) -> Self {
+        if changes.is_empty() {
+            // Nothing to do. Rebuilding the table for an unchanged AST
+            // would attach all build and semantic errors a second time.
+            return self;
+        }
         let mut analysed_source = changes.into_iter().fold(self, |mut acc, change| {
             acc.text.replace_range(change.to_range(), &change.text);
             let (new_tokens, token_change) = lexer::update(&acc.text, acc.tokens, &change);
